@@ -8,6 +8,7 @@ import (
 	"path/filepath"
 	"runtime"
 	"runtime/debug"
+	"sort"
 	"strconv"
 	"strings"
 	"time"
@@ -270,6 +271,28 @@ func Minimise(eng Engine, job *Job, rf *ReplayFile) *ReplayFile {
 			bestRes = res
 			bestRes.Config = rc.Config
 			bestEvents = rc.Full()
+			// keep what has been achieved on disk: a later candidate may hang its run (a zeroed decision can
+			// produce a pathological schedule), the watchdog then kills this process, and the runner must
+			// still find the best tape so far
+			if n > 1 && job.Replay != "" {
+				snap := *rf
+				snap.Tape = rc.Tape.Rec
+				if snap.OrigTapeLen == 0 {
+					snap.OrigTapeLen = len(rf.Tape)
+				}
+				snap.Minimised, snap.MinSteps = true, n
+				snap.Violation, snap.LogHash, snap.Config = res.Violation, res.LogHash, rc.Config
+				ev := rc.Full()
+				if len(ev) > 400 {
+					ev = ev[len(ev)-400:]
+				}
+				snap.Events = ev
+				if b, err := json.MarshalIndent(&snap, "", " "); err == nil {
+					if os.WriteFile(job.Replay+".tmp", b, 0644) == nil {
+						_ = os.Rename(job.Replay+".tmp", job.Replay)
+					}
+				}
+			}
 			return rc.Tape.Rec, true
 		}
 		return nil, false
@@ -313,6 +336,46 @@ func Minimise(eng Engine, job *Job, rf *ReplayFile) *ReplayFile {
 		}
 		if n >= budgetN {
 			break
+		}
+	}
+	// (1b) whole fault classes: all non-zero choices of one label at once (every "drop", every "dup",
+	// every "crash.cut" ...), labels with the most non-zero choices first. Cheap - one replay per label -
+	// and for the long cluster runs it removes most of the noise before the element-wise passes start.
+	{
+		cnt := map[string]int{}
+		for _, e := range cur {
+			if e.V != 0 {
+				cnt[e.L]++
+			}
+		}
+		labels := make([]string, 0, len(cnt))
+		for l := range cnt {
+			labels = append(labels, l)
+		}
+		sort.Slice(labels, func(i, j int) bool {
+			if cnt[labels[i]] != cnt[labels[j]] {
+				return cnt[labels[i]] > cnt[labels[j]]
+			}
+			return labels[i] < labels[j]
+		})
+		for _, l := range labels {
+			if n >= budgetN || time.Since(t0) > budgetT {
+				break
+			}
+			cand := append([]TapeEntry(nil), cur...)
+			changed := false
+			for i := range cand {
+				if cand[i].L == l && cand[i].V != 0 {
+					cand[i].V = 0
+					changed = true
+				}
+			}
+			if !changed {
+				continue
+			}
+			if t, ok := try(cand); ok {
+				cur = t
+			}
 		}
 	}
 	// (2) ddmin zeroing
